@@ -74,8 +74,11 @@ where
     }
 
     fn call(&mut self, req: Req) -> Self::Future {
-        // Clone the service for the spawned task
-        let mut service = self.inner.clone();
+        // Move the instance that `poll_ready` was called on into the spawned task and
+        // leave a fresh clone behind: a clone has not observed readiness and must not
+        // be called directly.
+        let clone = self.inner.clone();
+        let mut service = std::mem::replace(&mut self.inner, clone);
         let (tx, rx) = oneshot::channel();
 
         // Spawn the request processing on the executor
